@@ -26,6 +26,7 @@ EXPLANATION = (
     "with ANY of the names returns that name's documentation and re-establishes the invariant - which covers every "
     "interleaving of functions, classes and constructors; the invariant is checked to hold initially on __init__'s "
     "source. (plaintext_pick) get_full_docstring on shim class/function bodies returns the declaration's docstring."
+    ' (result_names) analyser and generator together on functions with return hints of 0-3 elements and 1-3 documented results (named/unnamed, typed/untyped; the docstring parser is a stub returning them): where the stub declares as many results as are documented, the i-th @result line carries the name of the i-th declared result and every description occurs once.'
 )
 ASSUMPTIONS = [
     "'the same documentation whichever of the NumPy, Google or reST styles the source uses' compares three griffe "
